@@ -226,6 +226,34 @@ class SliceCtx:
 
 
 # ---------------------------------------------------------------------------------------
+# large samples: the survey replicated K times (every count and weight times the integer K)
+
+SCALES = [10 ** 4, 10 ** 5, 3 * 10 ** 6]
+
+
+def pick_scale(rng, p=0.15):
+    return rng.choice(SCALES) if rng.random() < p else 1
+
+
+def scaled_survey(survey, k):
+    if k == 1:
+        return survey
+    return [(w * k, a) for w, a in survey]
+
+
+def scale_response(resp, k):
+    """the cube response of the K-fold replicated survey (integer payload stays integer)"""
+    if k == 1:
+        return resp
+    res = resp["result"]
+    res["counts"] = [gen.num(Fraction(x) * k) for x in res["counts"]]
+    res["n"] = res["n"] * k
+    cnt = res["measures"]["count"]
+    cnt["data"] = [gen.num(Fraction(x) * k) for x in cnt["data"]]
+    return resp
+
+
+# ---------------------------------------------------------------------------------------
 # misc
 
 
